@@ -17,6 +17,8 @@ func init() {
 		Quick:      all("./proto", "./internal/impl", "./internal/order", "./encoding/protojson", "./encoding/prototext"),
 		Thorough:   []ConfigLoad{{"default", []string{"./..."}}, {"reflect", []string{"./proto"}}},
 		Run: func(c *Ctx) {
+			c.ruleReflEncParity("R-REFL-ENC-PARITY")
+			c.ruleMapEntryParity("R-MAP-ENTRY-PARITY")
 			if c.P.Config == "reflect" {
 				c.ruleFastPathGateReflect("R-FASTPATH-GATE")
 				return
